@@ -5,6 +5,7 @@ import (
 	"fmt"
 	"strings"
 
+	apb "github.com/google/fhir/go/proto/google/fhir/proto/annotations_go_proto"
 	dtpb "github.com/google/fhir/go/proto/google/fhir/proto/r4/core/datatypes_go_proto"
 	"github.com/iancoleman/strcase"
 	"github.com/verily-src/fhirpath-go/fhirpath"
@@ -683,19 +684,39 @@ func enumFromStringable(msg protoreflect.Message, val stringable) (fhir.Base, er
 	container := msg.New()
 	valueField := container.Descriptor().Fields().ByName("value")
 	if valueField != nil && valueField.Kind() == protoreflect.EnumKind {
-		if strcase.ToKebab(strVal) != strVal {
-			return nil, fmt.Errorf("%w: %q", ErrInvalidEnum, strVal)
-		}
-		enumValueStr := protoreflect.Name(strcase.ToScreamingSnake(strVal))
-		enum := valueField.Enum().Values().ByName(enumValueStr)
+		enum := enumValueByCode(valueField.Enum(), strVal)
 		if enum == nil {
-			return nil, fmt.Errorf("%w: %q", ErrInvalidEnum, enumValueStr)
+			return nil, fmt.Errorf("%w: %q", ErrInvalidEnum, strVal)
 		}
 		enumVal := protoreflect.ValueOfEnum(protoreflect.EnumNumber(enum.Number()))
 		container.Set(valueField, enumVal)
 		return container.Interface(), nil
 	}
 	return nil, nil
+}
+
+// enumValueByCode returns the value of the enum whose FHIR code is exactly code:
+// the fhir_original_code annotation where the proto carries one (e.g.
+// "DocumentManifest", ">="), otherwise the value name in lower-kebab-case.
+// Returns nil if there is no such code.
+func enumValueByCode(enum protoreflect.EnumDescriptor, code string) protoreflect.EnumValueDescriptor {
+	values := enum.Values()
+	for i := 0; i < values.Len(); i++ {
+		value := values.Get(i)
+		if value.Number() == 0 {
+			continue // INVALID_UNINITIALIZED is not a FHIR code
+		}
+		if proto.HasExtension(value.Options(), apb.E_FhirOriginalCode) {
+			if proto.GetExtension(value.Options(), apb.E_FhirOriginalCode).(string) == code {
+				return value
+			}
+			continue
+		}
+		if strings.ToLower(strings.ReplaceAll(string(value.Name()), "_", "-")) == code {
+			return value
+		}
+	}
+	return nil
 }
 
 // intValueFromInt converts an integer to the appropriate type.
